@@ -23,4 +23,16 @@ def encodeUtf16BE (cs : List Nat) : Bytes :=
 /-- Value of a letters numeral read as bijective base 26 (a = 1 … z = 26). -/
 def alphaValue (t : Text) : Nat := t.foldl (fun acc c => acc * 26 + (c - 96)) 0
 
+/-- `t` is a bijective base-26 numeral of `v`: lowercase letters only, reading `v`.  There is exactly
+one for every `v > 0` (`bijNumeral_unique`, `alpha_characterised`). -/
+def isBijNumeral (t : Text) (v : Int) : Prop :=
+  (∀ c ∈ t, 97 ≤ c ∧ c ≤ 122) ∧ (alphaValue t : Int) = v
+
+/-- What the pinned code is proved to write for a numeral, for every style: ISO 32000-1 Table 159 for
+decimal and roman; for the letter styles the bijective base-26 numeral (open finding alpha-repeat). -/
+def numeralPinned (style : Option Bytes) (v : Int) (num : Text) : Prop :=
+  if style = some styleA then ∃ t, isBijNumeral t v ∧ num = upper t
+  else if style = some stylea then isBijNumeral num v
+  else Spec.Labels.numeral style v = some num
+
 end PdfVerif.Spec.LabelsExtra
